@@ -316,3 +316,133 @@ class CounterCount(Family):
             ctx.prove("post.values'[p] == shared value + number of hits at p", data.get(p) == base + cnt(p, h))
             ctx.prove("post.one value per key cell", dim_term(data.shape_[0]) == size)
             ctx.prove("post.the new values get the key array's geometry", z3.BoolVal(made[0][1] is Keys._shape and t._values[0] == "NEW-VALUES"))
+
+
+@register
+class GetIndices(Family):
+    """HashTable._get_indices(keys): given the bucket invariant (distinct keys; bucket h holds the keys with hash h) the
+    vector lookup is refused iff some queried key is absent, and otherwise offsets[i] is the position of keys[i] in its bucket.
+    The chain (self._keys[hashes] == keys[:, None]).nonzero() is replaced by the contracts of its three callees
+    (row selection C02, ufunc with a column C04, nonzero C08), stated over (row, column) coordinates:
+      M(i, c) <=> bucket(hash_i)[c] == keys[i];  (rows, offsets) lists exactly the true cells of M in row-major order."""
+    name = "HashTable._get_indices"
+    qualname = "npstructures.hashtable:HashTable._get_indices"
+    serves = ["C11"]
+    timeout_ms = 30000
+    assumed = ["callee contracts: RaggedArray[int array] (C02), == with a column vector (C04), RaggedArray.nonzero (C08)",
+               "callee contract HashTable._get_hash: a function of the key with values in [0, mod) (proved in its own family)",
+               "lemma strictly-increasing-selfmap (proved in vf.proofs.lemmas)"]
+
+    def kinds(self):
+        return ["vector"]
+
+    def run(self, ctx, kind):
+        from .ragged import sym_shape
+        t = bare_table()
+        m = z3.Int("mod")
+        ctx.assume(m >= 1)
+        t._mod = SInt(m)
+        ks = sym_shape(ctx, "buckets")                       # geometry of the bucketed key array: m rows
+        ctx.assume(ks.n == m)
+        size = ks.S(ks.n)
+        KD = z3.Function(fresh_name("key"), z3.IntSort(), z3.IntSort())           # flat key array
+        brow = z3.Function(fresh_name("bucket_of_cell"), z3.IntSort(), z3.IntSort())
+        # bucket invariant
+        ctx.assume_forall("keys distinct", lambda a, b: z3.Implies(z3.And(0 <= a, a < b, b < size), KD(a) != KD(b)), arity=2)
+        HASH = z3.Function(fresh_name("hash"), z3.IntSort(), z3.IntSort())       # contract of _get_hash (proved in its own family):
+        ctx.assume_forall("hash range", lambda k_: z3.And(0 <= HASH(k_), HASH(k_) < m))   # a function of the key with values in [0, m)
+        ctx.assume_forall("cell a lies in bucket row(a) = hash of its key", lambda a: z3.Implies(z3.And(0 <= a, a < size), z3.And(
+            0 <= brow(a), brow(a) < m, ks.S(brow(a)) <= a, a < ks.S(brow(a)) + ks.L(brow(a)), brow(a) == HASH(KD(a)))))
+        q = z3.Int("q")
+        ctx.assume(q >= 0)
+        keys = SymArr.symbolic("query", q, "int", assume_len=False)
+        Q = keys.fn
+        # contract of the comparison matrix M and of its nonzero()
+        cnt = z3.Int("cnt")
+        ctx.assume(cnt >= 0)
+        rows = SymArr.symbolic("rows", cnt, "int", assume_len=False)
+        offs = SymArr.symbolic("offs", cnt, "int", assume_len=False)
+        R, O = rows.fn, offs.fn
+        log = []
+        Hh = {}
+        cellidx = z3.Function(fresh_name("idx_of_true_cell"), z3.IntSort(), z3.IntSort(), z3.IntSort())
+
+        class Cmp:
+            def nonzero(s):
+                H = Hh["h"]
+                M = lambda i, c: KD(ks.S(H(i)) + c) == Q(i)
+                cx = cur()
+                cx.assume_forall("nonzero: listed cells exist and are true", lambda u: z3.Implies(z3.And(0 <= u, u < cnt), z3.And(
+                    0 <= R(u), R(u) < q, 0 <= O(u), O(u) < ks.L(H(R(u))), M(R(u), O(u)))))
+                cx.assume_forall("nonzero: row-major order", lambda u: z3.Implies(z3.And(0 <= u, u + 1 < cnt), z3.Or(
+                    R(u) < R(u + 1), z3.And(R(u) == R(u + 1), O(u) < O(u + 1)))))
+                cx.assume_forall("nonzero: row-major order (rows never decrease along the listing)", lambda u, v_: z3.Implies(
+                    z3.And(0 <= u, u <= v_, v_ < cnt), R(u) <= R(v_)), arity=2)
+                cx.assume_forall("nonzero: every true cell is listed", lambda i, c: z3.Implies(
+                    z3.And(0 <= i, i < q, 0 <= c, c < ks.L(H(i)), M(i, c)),
+                    z3.And(0 <= cellidx(i, c), cellidx(i, c) < cnt, R(cellidx(i, c)) == i, O(cellidx(i, c)) == c)), arity=2)
+                return rows, offs
+
+        class Possible:
+            def __eq__(s, other):
+                log.append(("eq", other))
+                return Cmp()
+
+        class Keys:
+            def __getitem__(s, h):
+                log.append(("buckets", h))
+                hs = h.snapshot()
+                Hh["h"] = lambda i: hs(i)
+                return Possible()
+
+            def ravel(s):
+                return "ALL-KEYS"
+        t._keys = Keys()
+        i = z3.Int("i")
+        from npstructures.hashtable import HashTable
+        old_hash = HashTable.__dict__["_get_hash"]
+
+        def hash_stub(self_, k_):
+            ksn = k_.snapshot()
+            return SymArr.fresh(k_.shape_, lambda ii: HASH(ksn(ii)), "int", np.int64)
+        HashTable._get_hash = hash_stub
+        try:
+            try:
+                hashes, offsets = t._get_indices(keys)
+            finally:
+                HashTable._get_hash = old_hash
+        except IndexError:
+            H = Hh["h"]
+            # refused: then some queried key is absent.  Proved by refutation: assume every key present (witness cell a_i) ...
+            loc = z3.Function(fresh_name("cell_of_query"), z3.IntSort(), z3.IntSort())
+            ctx.assume_forall("every queried key is in the table", lambda ii: z3.Implies(z3.And(0 <= ii, ii < q), z3.And(
+                0 <= loc(ii), loc(ii) < size, KD(loc(ii)) == Q(ii))))
+            # ... then row i of M has a true cell (in bucket hash_i, by the invariant), its index in the listing increases with i,
+            # hence idx(i) >= i (lemma) and the listing has at least q entries: no refusal
+            col = lambda ii: loc(ii) - ks.S(H(ii))
+            idx = lambda ii: cellidx(ii, col(ii))
+            ctx.skolem(z3.And(0 <= i, i < q))
+            ctx.prove_then_assume("refusal.lemma1: the cell of key i lies in the bucket selected for it", z3.And(brow(loc(i)) == H(i), 0 <= col(i), col(i) < ks.L(H(i))),
+                                  pool=[i, loc(i), brow(loc(i)), H(i)])
+            ctx.assume_forall("lemma1 for all i", lambda ii: z3.Implies(z3.And(0 <= ii, ii < q), z3.And(brow(loc(ii)) == H(ii), 0 <= col(ii), col(ii) < ks.L(H(ii)))))
+            ctx.prove_then_assume("refusal.lemma2: listing index of row i+1's cell is beyond that of row i", z3.Implies(i + 1 < q, idx(i) < idx(i + 1)),
+                                  pool=[i, i + 1, idx(i), idx(i + 1), idx(i) + 1, col(i), col(i + 1)], kind="lemma")
+            ctx.assume_forall("idx increasing => idx(i) >= i (lemma strictly-increasing-selfmap)", lambda ii: z3.Implies(z3.And(0 <= ii, ii < q), idx(ii) >= ii))
+            ctx.prove("raises=>some queried key is absent", z3.BoolVal(False), pool=[q - 1, idx(q - 1), col(q - 1), z3.IntVal(0)])
+            return
+        H = Hh["h"]
+        ctx.prove("post.hashes returned are the buckets consulted", z3.BoolVal(hashes is log[0][1] and offsets is offs))
+        ctx.skolem(z3.And(0 <= i, i < q))
+        ctx.prove("post.bucket of key i is its hash", H(i) == HASH(Q(i)))
+        ctx.prove("post.compared with the query as a column", log[1][1].get(i, 0) == Q(i))
+        # returned: cnt >= q.  At most one true cell per row (distinct keys) => rows strictly increasing => rows = identity
+        u = z3.Int("u")
+        ctx.skolem(z3.And(0 <= u, u + 1 < cnt))
+        ctx.prove_then_assume("returns.lemma1: at most one hit per query row, so rows strictly increase", R(u) < R(u + 1),
+                              pool=[u, u + 1, R(u), R(u + 1), ks.S(H(R(u))) + O(u), ks.S(H(R(u))) + O(u + 1), H(R(u))], kind="lemma")
+        ctx.assume_forall("rows strictly increasing", lambda uu: z3.Implies(z3.And(0 <= uu, uu + 1 < cnt), R(uu) < R(uu + 1)))
+        ctx.assume_forall("rows(u) >= u (lemma strictly-increasing-selfmap)", lambda uu: z3.Implies(z3.And(0 <= uu, uu < cnt), R(uu) >= uu))
+        ctx.assume_forall("rows(u) <= q - cnt + u (same lemma, from the top)", lambda uu: z3.Implies(z3.And(0 <= uu, uu < cnt), R(uu) <= q - cnt + uu))
+        ctx.prove("post.one hit per queried key, in query order", z3.And(cnt == q, R(i) == i), pool=[i, q - 1, z3.IntVal(0), cnt - 1])
+        ctx.prove("post.offsets[i] is the position of keys[i] in its bucket", z3.And(0 <= O(i), O(i) < ks.L(H(i)), KD(ks.S(H(i)) + O(i)) == Q(i)),
+                  pool=[i, q - 1, z3.IntVal(0), cnt - 1])
